@@ -1,4 +1,4 @@
-import SamplyModel.Lemmas.BreakpadReadIndex
+import SamplyModel.Lemmas.BreakpadReading
 /-!
 # C10 — the Breakpad symbol index is independent of chunking and agrees with the .sym text
 
@@ -121,8 +121,7 @@ theorem C10_legacy_counterexample_origin_in_func :
     (parseBody (splitLines ([49, 48, 48, 48, 32, 50, 48, 32, 49, 32, 48, 10, 73, 78, 76, 73, 78, 69, 95, 79, 82, 73, 71, 73, 78, 32, 48, 32, 103, 10] : List UInt8))).isSome = true := by
   decide
 
-/-- Agreement with the text, index part (what is proved of `C10_reading`; see `notes/C10.md` for what is
-left to the correspondence check). For every well-formed abstract file `s` (`BPS.WFIndex`: a MODULE line
+/-- Agreement with the text, index part. For every well-formed abstract file `s` (`BPS.WFIndex`: a MODULE line
 the grammar accepts; INFO / FILE / INLINE_ORIGIN / PUBLIC / FUNC / line / INLINE / STACK records in ANY
 order with fields in range, names without line breaks; distinct symbol addresses, FILE ids and
 INLINE_ORIGIN ids; any mixture of `\n`, `\r\n`, `\r\r\n` terminators; with or without final newline;
@@ -132,7 +131,7 @@ INLINE_ORIGIN entry carries the offset and (CR-stripped) length of its line, eve
 offset and length of its line, every FUNC entry the offset of its line and the distance to the next
 PUBLIC / FUNC / INFO / STACK line (or the end of the file), all sorted by key. The offsets and lengths
 of `specIndex` are defined by arithmetic on the rendered line lengths only. -/
-theorem C10_reading_partial (pick : Pick) (s : SymFile) (h : WFIndex s) (chunks : List (List UInt8))
+theorem C10_reading_index (pick : Pick) (s : SymFile) (h : WFIndex s) (chunks : List (List UInt8))
     (hflat : chunks.flatten = render s) :
     preIndex pick chunks = .ix (specIndex s) ∧
     index pick chunks = (if serializeSafe (specIndex s) then .ok (serialize (specIndex s)) else .panic) ∧
@@ -143,7 +142,7 @@ theorem C10_reading_partial (pick : Pick) (s : SymFile) (h : WFIndex s) (chunks 
 
 /-- … and the symbol map built over the file (with or without that index stored separately) holds
 exactly `specIndex s`. -/
-theorem C10_reading_partial_map (pick : Pick) (s : SymFile) (h : WFIndex s)
+theorem C10_reading_index_map (pick : Pick) (s : SymFile) (h : WFIndex s)
     (hm : (tag tMODULE_ s.moduleLine).isSome = true) (hs : serializeSafe (specIndex s) = true)
     (chunks : List (List UInt8)) (hflat : chunks.flatten = render s) :
     mapSelf pick (render s) = .ok (specIndex s) ∧
@@ -154,6 +153,46 @@ theorem C10_reading_partial_map (pick : Pick) (s : SymFile) (h : WFIndex s)
   apply mapStored_eq_mapSelf pick (render s) chunks _ hflat
   rw [index_render pick s h chunks hflat, hs]
   rfl
+
+/-- **Agreement with a straightforward reading of the text.** For every well-formed abstract file `s`
+(`BPS.WF`: `WFIndex` — records of every kind in any order, fields in range, sane names, distinct symbol
+addresses / FILE ids / INLINE_ORIGIN ids, any mixture of line terminators, with or without final newline,
+below 4 GiB — plus, per FUNC block: inline ranges non-empty, below 2^32 and non-overlapping per depth;
+line records ascending, contiguous and reaching the end of the function), every partition of its rendered
+text into chunks and every address `a`:
+
+* the self-indexing symbol map and the map that is handed the index built from those chunks are the same
+  map (they hold the specification index), and
+* its answer to the lookup of `a` — found or not, symbol address, size, name, and the frames: inline call
+  chain with caller file / line per level and the file and line of the covering line record — is exactly
+  `BPS.readDirectly s a`, which looks only at the abstract records (greatest symbol address ≤ a; FUNC
+  covers `[addr, addr+size)`, PUBLIC reaches to the next symbol; per depth the INLINE record with a range
+  covering `a`; the line record covering `a`; FILE / INLINE_ORIGIN names by id).
+
+`serializeSafe (specIndex s)` = the index fits the 4 GiB `.symindex` layout; `tMODULE_` = the file starts
+with the seven bytes `MODULE ` (what `is_breakpad_file` tests). -/
+theorem C10_reading (pick : Pick) (s : SymFile) (h : WF s)
+    (hm : (tag tMODULE_ s.moduleLine).isSome = true) (hs : serializeSafe (specIndex s) = true)
+    (chunks : List (List UInt8)) (hflat : chunks.flatten = render s) (a : Nat) :
+    ∃ ix, mapSelf pick (render s) = .ok ix ∧
+      (∀ bytes, index pick chunks = .ok bytes → mapStored pick (render s) (some bytes) = .ok ix) ∧
+      lookup (render s) ix a = readDirectly s a := by
+  refine ⟨specIndex s, mapSelf_render pick s h.index hm hs, ?_, lookup_render s h a⟩
+  intro bytes hb
+  rw [mapStored_eq_mapSelf pick (render s) chunks bytes hflat hb]
+  exact mapSelf_render pick s h.index hm hs
+
+/-- The lookup never hits the out-of-range index of `symbol_entries[index]` on a map the creator built. -/
+theorem C10_reading_no_panic (s : SymFile) (h : WF s) (a : Nat) :
+    lookup (render s) (specIndex s) a ≠ .panic := by
+  rw [lookup_render s h a]
+  unfold readDirectly
+  simp only
+  split
+  · simp
+  · split
+    · simp
+    · split <;> simp
 
 /-! ### Non-vacuity -/
 
@@ -200,3 +239,21 @@ theorem C10_exampleFile_wf : WFIndex C10_exampleFile := by
 example : (specIndex C10_exampleFile).files = [⟨0, 10, 56⟩] ∧
     (specIndex C10_exampleFile).addrs = [4096, 8192] ∧
     (specIndex C10_exampleFile).entries = [⟨1, 29, 68⟩, ⟨0, 15, 97⟩] := by decide
+
+theorem C10_exampleFile_wf_full : WF C10_exampleFile := by
+  refine ⟨C10_exampleFile_wf, ?_⟩
+  intro r hr size hsz
+  simp only [C10_exampleFile, readSyms, List.mem_cons, List.not_mem_nil, or_false] at hr
+  rcases hr with rfl | rfl
+  · simp only [Option.some.injEq] at hsz
+    subst hsz
+    refine ⟨⟨by simp [inlineesOf, List.takeWhile, Rec.isCloser], by simp [inlineesOf, List.takeWhile, Rec.isCloser]⟩, ?_⟩
+    simp [linesOf, List.takeWhile, Rec.isCloser, LinesOK]
+  · simp at hsz
+
+/-- the direct reading of the example: 0x1004 lies in `f`, line 7 of `a.c`; 0x2005 in the PUBLIC `p`;
+0x1020 (first byte after `f`) and 0xfff in nothing -/
+example : readDirectly C10_exampleFile 4100
+      = .found ⟨4096, some 32, [102], some [⟨some [102], some [97, 46, 99], some 7⟩]⟩ ∧
+    readDirectly C10_exampleFile 8197 = .found ⟨8192, none, [112], none⟩ ∧
+    readDirectly C10_exampleFile 4128 = .none ∧ readDirectly C10_exampleFile 4095 = .none := by decide
